@@ -3244,4 +3244,18 @@ theorem proxy_obs {w w' : World} {k : Nat} (h : w.proxy k = .ok w') :
   injection h with h; subst h
   simp [World.obs, World.phases, World.pr, World.temp, World.pres, World.setStr, World.allocCache]
 
+/-- a conversion of stream `k` (any of the seven operations) keeps its totals, T, P -/
+theorem conversion_same {w w' : World} {op : Op} {k : Nat} (hop : op.isConversion = true)
+    (ht : op.target = some k) (h : w.step op = .ok w') : Same w w' k := by
+  have hb := (step_ok h).2
+  cases op with
+  | setPhases k' ps => cases ht; exact setPhases_same hb
+  | setPhase k' ls => cases ht; exact setPhase_same hb
+  | reduce k' => cases ht; exact reduce_same hb
+  | asStream k' => cases ht; exact asStream_same hb
+  | vle k' => cases ht; exact accessor_same hb
+  | lle k' => cases ht; exact accessor_same hb
+  | sle k' => cases ht; exact accessor_same hb
+  | _ => simp [Op.isConversion] at hop
+
 end ThermoVerif.Phases
